@@ -40,6 +40,7 @@ inductive Ev where
   | send (m : Nat)           -- SendNotification / SendRequest addressed to the session (lookup and write back to back)
   | sendBegin (m : Nat)      -- …the table lookup of a send
   | sendEnd (m : Nat)        -- …its write on the connection it found
+  | breakStream (n : Nat)    -- from now on writes on stream n fail (dead peer: EPIPE)
   deriving Repr, DecidableEq
 
 structure St where
@@ -49,6 +50,7 @@ structure St where
   failed : List Nat := []               -- messages whose send returned "session not found"
   inflight : List (Nat × Nat) := []     -- (message, connection found by the lookup) of sends between lookup and write
   crashed : List Nat := []              -- messages whose write hit a response whose handler had already returned (panic)
+  broken : List Nat := []               -- streams on which writes fail
   dead : Bool := false                  -- the session was terminated (DELETE): a GET that has not yet passed the session lookup gets 404
 
 def upd (f : Nat → H) (i : Nat) (v : H) : Nat → H := fun j => if j = i then v else f j
@@ -90,8 +92,12 @@ def step (f : Facts) (s : St) : Ev → Option St
     | none => some { s with dead := true }
   | .send m =>
     match s.table with
-    | some c => some { s with delivered := s.delivered ++ [(c, m)] }
+    | some c =>
+      -- a failed write is reported to the caller and changes nothing else (in particular not the table)
+      if s.broken.contains c then some { s with failed := s.failed ++ [m] }
+      else some { s with delivered := s.delivered ++ [(c, m)] }
     | none => some { s with failed := s.failed ++ [m] }
+  | .breakStream n => some { s with broken := n :: s.broken }
   | .sendBegin m =>
     if s.inflight.any (·.1 == m) then none else
     match s.table with
@@ -105,6 +111,7 @@ def step (f : Facts) (s : St) : Ev → Option St
       if (s.hs c).exited then
         if f.closedMarkOnExit then some { s with inflight := rest, failed := s.failed ++ [m] }
         else some { s with inflight := rest, crashed := s.crashed ++ [m] }
+      else if s.broken.contains c then some { s with inflight := rest, failed := s.failed ++ [m] }
       else some { s with inflight := rest, delivered := s.delivered ++ [(c, m)] }
 
 def run (f : Facts) : St → List Ev → Option St
